@@ -412,6 +412,9 @@ class PE:
         if isinstance(a, Top) or isinstance(b, Top):
             raise Undecidable(f"comparison with unknown value {a if isinstance(a, Top) else b}")
         if t is ast.Is:
+            for x, y in ((a, b), (b, a)):
+                if isinstance(x, Opaque) and hasattr(type(x), "_same_object"):
+                    return x._same_object(y)
             return a is b or (a is None and b is None) or (isinstance(a, bool) and isinstance(b, bool) and a == b)
         if t is ast.IsNot:
             return not self.compare(ast.Is(), a, b)
@@ -804,7 +807,14 @@ class PE:
         result = True
         for op, c in zip(n.ops, n.comparators):
             right = self.eval(c, env)
-            r = self.compare(op, left, right)
+            try:
+                r = self.compare(op, left, right)
+            except Undecidable as ex:
+                # the same question a branch test would ask, stored in a variable first (`same = a == b; if same:`): the check's
+                # assumptions apply to it as well
+                if len(n.ops) != 1 or self.assume is None:
+                    raise
+                return self._assume(n, env, ex)
             if isinstance(r, Arr):
                 return r
             if not r:
@@ -849,6 +859,10 @@ class PE:
         if isinstance(base, Top):
             return base
         if isinstance(base, ExtRef):  # typing generics
+            if getattr(self, "typing_subscript", None) is not None:
+                r = self.typing_subscript(self, base, self.eval(n.slice, env))
+                if r is not None:
+                    return r
             return base
         idx = self.eval(n.slice, env)
         return self.getitem(base, idx)
@@ -858,6 +872,10 @@ class PE:
             return base
         if isinstance(base, Opaque):
             return base[idx]
+        if isinstance(base, ExtRef) and getattr(self, "typing_subscript", None) is not None:
+            r = self.typing_subscript(self, base, idx)   # typing.Optional[int], List[float], ... (installed by sa/typemodel.py)
+            if r is not None:
+                return r
         if isinstance(base, Arr):
             if isinstance(idx, tuple):
                 key = tuple(k if isinstance(k, slice) or k is None or k is Ellipsis or isinstance(k, (Arr, list))
@@ -978,7 +996,7 @@ class PE:
                 if any(d.endswith("staticmethod") for d in decos):
                     return clo
                 return Bound(base, clo)
-            return NativeCall(v) if callable(v) else v
+            return NativeCall(v) if (callable(v) and not isinstance(v, Opaque)) else v
         raise PEError(f"attribute {attr} of {type(base).__name__}")
 
     # ------------------------------------------------------------ classes/objects
@@ -1038,6 +1056,14 @@ class PE:
             return members[attr]
         if attr == "__name__":
             return cls.node.name
+        if attr == "__mro__":
+            out, stack = [], [cls]
+            while stack:
+                c = stack.pop(0)
+                if c not in out:
+                    out.append(c)
+                    stack.extend(self.src.class_bases(c))
+            return tuple(ClassRef(c) for c in out)
         owner, node = self.class_attr_node(cls, attr)
         if node is None:
             raise PERaise("AttributeError", f"type object {cls.node.name} has no attribute {attr}")
@@ -1203,6 +1229,8 @@ class PE:
             return h(self, args, kwargs)
         if isinstance(f, NativeCall):
             return f.fn(*args, **kwargs)
+        if isinstance(f, Opaque) and callable(f):
+            return f(*args, **kwargs)
         if isinstance(f, BuiltinMethod):
             from . import pe_models
 
@@ -1341,6 +1369,8 @@ class PE:
                 return list(members.values())
         if isinstance(it, _Iter):
             return it.rest()
+        if it is None or isinstance(it, (bool, int, Fraction, float, Node)):
+            raise PERaise("TypeError", f"'{type(it).__name__}' object is not iterable")
         raise PEError(f"cannot iterate over {type(it).__name__}")
 
     # ------------------------------------------------------------ statements
@@ -1672,6 +1702,29 @@ class PE:
             base[idx] = v
             return
         if isinstance(base, Arr):
+            if isinstance(idx, (Arr, list)):
+                # boolean mask / index array along the first axis: rows selected in order receive the rows of v
+                sel = idx.flat() if isinstance(idx, Arr) else list(idx)
+                if sel and all(isinstance(i, bool) for i in sel):
+                    if len(sel) != base.shape[0]:
+                        raise PERaise("IndexError", f"boolean index did not match indexed array along axis 0; size of axis is {base.shape[0]} "
+                                                    f"but size of corresponding boolean axis is {len(sel)}")
+                    rows = [j for j, b in enumerate(sel) if b]
+                else:
+                    rows = [self.as_index(i) for i in sel]
+                vals = v
+                if isinstance(v, (list, tuple)):
+                    vals = Arr.from_nested(list(v))
+                if isinstance(vals, Arr) and vals.shape and vals.shape != tuple(base.shape[1:]):
+                    if vals.shape[0] != len(rows):
+                        raise PERaise("ValueError", f"shape mismatch: value array of shape {vals.shape} could not be broadcast to indexing "
+                                                    f"result of shape {(len(rows),) + tuple(base.shape[1:])}")
+                    for j, r in enumerate(rows):
+                        base[r] = vals[j]
+                else:
+                    for r in rows:
+                        base[r] = vals
+                return
             if isinstance(idx, tuple):
                 key = tuple(k if isinstance(k, slice) or k is None or k is Ellipsis else self.as_index(k) for k in idx)
             elif isinstance(idx, slice) or idx is Ellipsis or idx is None:
@@ -1827,3 +1880,99 @@ def _enum_mixin(src: Source, cls: Class):
         if s in ("IntEnum", "IntFlag", "StrEnum", "int", "str"):
             return True
     return any(_enum_mixin(src, b) for b in src.class_bases(cls))
+
+
+def decide_on_values(pe, text, env, rep=None, generic=True):
+    """Truth value of a condition the evaluator could not decide, judged on the VALUES of its operands rather than on the names the
+    source gives them: every name / attribute chain is evaluated in `env`; a symbolic value stands for the representative
+    `rep[<symbol name>]`, and (with `generic`) two different symbols without a representative are taken to be unequal / not close.
+    Supports comparisons, and/or/not, + - of values, abs, np.isclose.  Returns None when the condition involves anything else."""
+    rep = rep or {}
+    try:
+        tree = ast.parse(text, mode="eval").body
+    except SyntaxError:
+        return None
+
+    class Unknown(Exception):
+        pass
+
+    def conv(v):
+        if isinstance(v, bool):
+            raise Unknown()
+        if isinstance(v, (int, Fraction)):
+            return Fraction(v)
+        if isinstance(v, Node):
+            c = dag.as_const(v)
+            if c is not None:
+                return Fraction(c)
+            if v.op == "sym" and v.payload in rep:
+                return Fraction(rep[v.payload])
+            return v            # symbolic, no representative
+        raise Unknown()
+
+    def val(n):
+        if isinstance(n, ast.Constant) and isinstance(n.value, (int, float)) and not isinstance(n.value, bool):
+            return Fraction(n.value)
+        if isinstance(n, (ast.Name, ast.Attribute, ast.Subscript)):
+            if isinstance(n, ast.Name) and n.id in rep:
+                return Fraction(rep[n.id])
+            try:
+                return conv(pe.eval(n, env))
+            except Unknown:
+                raise
+            except Exception:
+                raise Unknown()
+        if isinstance(n, ast.BinOp) and isinstance(n.op, (ast.Add, ast.Sub)):
+            a, b = val(n.left), val(n.right)
+            if isinstance(a, Node) or isinstance(b, Node):
+                raise Unknown()
+            return a + b if isinstance(n.op, ast.Add) else a - b
+        if isinstance(n, ast.UnaryOp) and isinstance(n.op, ast.USub):
+            a = val(n.operand)
+            if isinstance(a, Node):
+                raise Unknown()
+            return -a
+        if isinstance(n, ast.Call) and ast.unparse(n.func) in ("np.abs", "abs", "np.fabs", "numpy.abs") and len(n.args) == 1:
+            a = val(n.args[0])
+            if isinstance(a, Node):
+                if generic:
+                    return GENERIC_MAGNITUDE   # |generic symbolic value|: positive and not within any tolerance of zero
+                raise Unknown()
+            return abs(a)
+        raise Unknown()
+
+    GENERIC_MAGNITUDE = Fraction(10 ** 6)
+
+    def same(a, b):
+        if isinstance(a, Node) or isinstance(b, Node):
+            if a is b:
+                return True
+            if generic:
+                return False
+            raise Unknown()
+        return a == b
+
+    def truth(n):
+        if isinstance(n, ast.BoolOp):
+            vs = [truth(v) for v in n.values]
+            return all(vs) if isinstance(n.op, ast.And) else any(vs)
+        if isinstance(n, ast.UnaryOp) and isinstance(n.op, ast.Not):
+            return not truth(n.operand)
+        if isinstance(n, ast.Call) and ast.unparse(n.func) in ("np.isclose", "numpy.isclose", "math.isclose") and len(n.args) >= 2:
+            return same(val(n.args[0]), val(n.args[1]))
+        if isinstance(n, ast.Compare) and len(n.ops) == 1:
+            a, b = val(n.left), val(n.comparators[0])
+            op = n.ops[0]
+            if isinstance(op, ast.Eq):
+                return same(a, b)
+            if isinstance(op, ast.NotEq):
+                return not same(a, b)
+            if isinstance(a, Node) or isinstance(b, Node):
+                raise Unknown()
+            return {ast.Lt: a < b, ast.LtE: a <= b, ast.Gt: a > b, ast.GtE: a >= b}[type(op)]
+        raise Unknown()
+
+    try:
+        return truth(tree)
+    except Unknown:
+        return None
